@@ -12,6 +12,7 @@ Part B: the positive half for small ranges (see below).
 -/
 import PcModel.DispenserGen
 import PcProofs.Dispenser
+import PcProofs.Dispenser2
 
 namespace Pc.LB.S2
 
@@ -155,7 +156,189 @@ theorem s2_whole_history_safety_refuted :
   revert this
   decide +kernel
 
+/-! ## Part B: the positive half (partial)
+
+What IS true of every history, and what one step needs.  The real constraint on the float-derived choice is
+`SegsAtMostDouble`: `factor = in_between(0.5, factor, 2.0)`, then either `segments_ *= 2` or
+`segments_ = max((int64_t) std::round(segments_ * factor), 1)` with `segments_ = thread.segments` just assigned,
+so the new value is `≤ 2 * thread.segments` (and `≥ 1`). -/
+
+/-- the true bound on the float-derived choice: `factor ≤ 2.0` and `std::round` -/
+@[reducible] def SegsAtMostDouble (e : Ev) : Prop := e.osegs ≤ 2 * e.tsegs
+
+theorem getHand_setHand (w v : Nat) (h : Hand) (hs : List (Nat × Hand)) :
+    getHand v (setHand w h hs) = if v = w then h else getHand v hs := by
+  induction hs with
+  | nil =>
+    by_cases hv : v = w
+    · subst hv; simp [setHand, getHand]
+    · have : ¬ w = v := fun h => hv h.symm
+      simp [setHand, getHand, hv, this]
+  | cons p ps ih =>
+    obtain ⟨u, g⟩ := p
+    by_cases hu : u = w
+    · subst hu
+      by_cases hv : v = u
+      · subst hv; simp [setHand, getHand]
+      · have : ¬ u = v := fun h => hv h.symm
+        simp [setHand, getHand, hv, this]
+    · by_cases hv : v = w
+      · subst hv
+        by_cases huv : u = v
+        · exact absurd huv hu
+        · simp [setHand, getHand, hu, ih]
+      · simp only [setHand, hu, if_false, getHand, ih, hv]
+
+/-- every outstanding hand lies below `low_`: `h.low + h.segs * h.size ≤ low_` -/
+def HandsBelow (s : State) : Prop :=
+  ∀ w, (getHand w s.hands).low + (getHand w s.hands).segs * (getHand w s.hands).size ≤ s.low
+
+theorem handsBelow_next (cfg : Config) (s : State) (e : Ev) (h : HandsBelow s) : HandsBelow (next cfg s e) := by
+  intro w
+  have hn : (next cfg s e).hands = setHand e.w ⟨s.low, (next cfg s e).segs, (next cfg s e).size,
+      decide (s.low < cfg.limit)⟩ s.hands := rfl
+  have hl : (next cfg s e).low = s.low + (next cfg s e).size * (next cfg s e).segs := rfl
+  rw [hn, getHand_setHand, hl]
+  by_cases hw : w = e.w
+  · simp only [hw, if_true]
+    rw [Nat.mul_comm]; exact Nat.le_refl _
+  · simp only [hw, if_false]
+    have := h w
+    omega
+
+/-- **whole-history invariant** (no restriction on range, threads or durations): the chunk a worker hands back
+    was cut off below the current `low_` -/
+theorem handsBelow_run (cfg : Config) (es : List Ev) (s : State) (h : HandsBelow s) : HandsBelow (run cfg s es) := by
+  induction es generalizing s with
+  | nil => exact h
+  | cons e es ih => exact ih _ (handsBelow_next cfg s e h)
+
+theorem handsBelow_init (c : Consts) (x limit threads : Nat) (print : Bool) :
+    HandsBelow (init c x limit threads print) := by
+  intro w
+  have : (init c x limit threads print).hands = [] := by simp only [init]; split <;> rfl
+  rw [this]; simp [getHand]
+
+/-- in every history from `S2.init`, a call that hands back what it was handed (`handOk`) satisfies
+    `thread.segments * thread.segment_size ≤ low_` -/
+theorem hand_product_le_low (c : Consts) (x limit threads : Nat) (print : Bool) (cfg : Config) (es : List Ev) (e : Ev)
+    (hh : handOk (run cfg (init c x limit threads print) es) e = true) :
+    e.tsegs * e.tsize ≤ (run cfg (init c x limit threads print) es).low := by
+  have hb := handsBelow_run cfg es _ (handsBelow_init c x limit threads print) e.w
+  simp only [handOk, Bool.and_eq_true, beq_iff_eq] at hh
+  obtain ⟨⟨_, h2⟩, h3⟩ := hh
+  rw [h2, h3] at hb
+  omega
+
+theorem next_segs_le (cfg : Config) (s : State) (e : Ev) :
+    (next cfg s e).segs ≤ max s.segs (max e.tsegs e.osegs) := by
+  have : (next cfg s e).segs = (update cfg s (s.sum + e.tsum) e.tlow e.tsegs e.osegs).2.1 := rfl
+  rw [this]; unfold update
+  split
+  · split
+    · simp only; omega
+    · split
+      · simp only; omega
+      · split <;> (simp only; omega)
+  · simp only; omega
+
+/-- **one step, hypotheses over the hand** (PARTIAL).  With `smin ≤` every segment size in play `≤ R * smin`,
+    the handed-back chunk below `low_` (`hand_product_le_low`: true in every history), the current `segments_`
+    obtained the same way (`segments_ * smin ≤ 2 * low_`), the TRUE float bound `SegsAtMostDouble`, and
+    `low_ * (1 + 4 R (threads + 1)) < 2^63`, no signed 64-bit intermediate of this `get_work` leaves int64.
+    MISSING for a whole-history theorem: (i) a bound on `low_` itself after the first `false` answer (each of the
+    other `threads - 1` workers adds another `segment_size_ * segments_`; needs counting the retired workers),
+    (ii) `segments_ * smin ≤ 2 * low_` as an invariant (it is restored by every updating call by this lemma's own
+    argument, but the early-return branches re-install `thread.segments` of an older hand), (iii) for
+    `sqrt(limit) > L2_segment_size` the ratio `R` between the current size and the size of an old hand is
+    `sqrt(limit) / x^(1/4)`, not a constant.  The experiments (notes/wp-safety-lb.md) show that the whole-history
+    claim is FALSE from `limit = 2^52` on with 1024 workers (2^56: 64, 2^60: 8, 2^61: 1-2 workers), so no theorem
+    with `L = 2^54, T = 2^10` exists; no overflowing history was found for `limit ≤ 2^51`. -/
+theorem s2_step_no_overflow_of_hand_partial (cfg : Config) (s : State) (e : Ev) (smin R : Nat)
+    (hdbl : SegsAtMostDouble e)
+    (hsmin : 1 ≤ smin) (hR : 1 ≤ R) (hs1 : 1 ≤ s.segs)
+    (htsize : smin ≤ e.tsize)
+    (hhand : e.tsegs * e.tsize ≤ s.low)
+    (hsegs : s.segs * smin ≤ 2 * s.low)
+    (hsz : s.size ≤ R * smin) (hsz' : (next cfg s e).size ≤ R * smin)
+    (hnum : s.low + 4 * R * s.low * (cfg.threads + 1) < two63)
+    (hsum : s.sum.natAbs ≤ 2 ^ 126 - 1) (htsum : e.tsum.natAbs ≤ 2 ^ 126) :
+    noOvf cfg s e = true := by
+  have hp := peak_le cfg s e
+  have hns := next_segs_le cfg s e
+  -- segs bounds, scaled by smin
+  have ht : e.tsegs * smin ≤ s.low := Nat.le_trans (Nat.mul_le_mul_left _ htsize) hhand
+  have ho : e.osegs * smin ≤ 2 * s.low := by
+    have : e.osegs * smin ≤ 2 * e.tsegs * smin := Nat.mul_le_mul_right _ hdbl
+    have h2 : 2 * e.tsegs * smin = 2 * (e.tsegs * smin) := Nat.mul_assoc _ _ _
+    omega
+  have hn : (next cfg s e).segs * smin ≤ 2 * s.low := by
+    have h1 : (next cfg s e).segs * smin ≤ (max s.segs (max e.tsegs e.osegs)) * smin := Nat.mul_le_mul_right _ hns
+    have h2 : (max s.segs (max e.tsegs e.osegs)) * smin ≤ 2 * s.low := by
+      rcases Nat.le_total s.segs (max e.tsegs e.osegs) with h | h
+      · rw [Nat.max_eq_right h]
+        rcases Nat.le_total e.tsegs e.osegs with h' | h'
+        · rw [Nat.max_eq_right h']; exact ho
+        · rw [Nat.max_eq_left h']; omega
+      · rw [Nat.max_eq_left h]; exact hsegs
+    omega
+  -- the four candidates of the peak
+  have hsm : smin ≤ 2 * s.low := Nat.le_trans (Nat.le_mul_of_pos_left _ hs1) hsegs
+  have c1 : (next cfg s e).size * (next cfg s e).segs ≤ R * (2 * s.low) := by
+    have : (next cfg s e).size * (next cfg s e).segs ≤ R * smin * (next cfg s e).segs := Nat.mul_le_mul_right _ hsz'
+    have h2 : R * smin * (next cfg s e).segs = R * ((next cfg s e).segs * smin) := by
+      rw [Nat.mul_assoc, Nat.mul_comm smin]
+    have h3 : R * ((next cfg s e).segs * smin) ≤ R * (2 * s.low) := Nat.mul_le_mul_left _ hn
+    omega
+  have c2 : s.size + s.size ≤ 2 * (R * (2 * s.low)) := by
+    have : R * smin ≤ R * (2 * s.low) := Nat.mul_le_mul_left _ hsm
+    omega
+  have c3 : e.osegs ≤ 2 * s.low := Nat.le_trans (Nat.le_mul_of_pos_right _ hsmin) ho
+  have c4 : (s.size + s.size) * e.osegs * cfg.threads ≤ 2 * R * (2 * s.low) * cfg.threads := by
+    refine Nat.mul_le_mul_right _ ?_
+    have h1 : (s.size + s.size) * e.osegs ≤ (2 * (R * smin)) * e.osegs := Nat.mul_le_mul_right _ (by omega)
+    have h2 : (2 * (R * smin)) * e.osegs = 2 * R * (e.osegs * smin) := by
+      rw [Nat.mul_assoc 2 R, Nat.mul_assoc 2, Nat.mul_assoc R, Nat.mul_comm smin]
+    have h3 : 2 * R * (e.osegs * smin) ≤ 2 * R * (2 * s.low) := Nat.mul_le_mul_left _ ho
+    omega
+  -- linearise: A = R * low, B = R * low * threads
+  have eA : R * (2 * s.low) = 2 * (R * s.low) := by rw [Nat.mul_left_comm]
+  have eB : 2 * R * (2 * s.low) * cfg.threads = 4 * (R * s.low * cfg.threads) := by
+    rw [Nat.mul_assoc 2 R, eA]
+    have : 2 * (2 * (R * s.low)) = 4 * (R * s.low) := by omega
+    rw [this, Nat.mul_assoc]
+  have eN : 4 * R * s.low * (cfg.threads + 1) = 4 * (R * s.low * cfg.threads) + 4 * (R * s.low) := by
+    rw [Nat.mul_assoc 4 R, Nat.mul_assoc 4, Nat.mul_add, Nat.mul_one, Nat.mul_add]
+  have hRl : s.low ≤ R * s.low := Nat.le_mul_of_pos_left _ hR
+  rw [eA] at c1 c2
+  rw [eB] at c4
+  rw [eN] at hnum
+  simp only [noOvf, Bool.and_eq_true]
+  refine ⟨decide_eq_true ?_, decide_eq_true ?_⟩
+  · omega
+  · have e6 : (2 : Nat) ^ 126 = 85070591730234615865843651857942052864 := by decide
+    rw [e6] at hsum htsum
+    simp only [two127]
+    omega
+
+/-- the hypotheses are satisfiable on a non-trivial state: call 10 of the recorded history (low_ = 14395944960,
+    segments_ = 256, segment_size_ = 56234160 = smin, R = 1, 2 threads) -/
+example :
+    let s := run wCfg wInit (wPre.take 10)
+    let e := wPre.getD 10 wLast
+    SegsAtMostDouble e ∧ 1 ≤ s.segs ∧ 56234160 ≤ e.tsize ∧ e.tsegs * e.tsize ≤ s.low ∧
+      s.segs * 56234160 ≤ 2 * s.low ∧ s.size ≤ 1 * 56234160 ∧ (next wCfg s e).size ≤ 1 * 56234160 ∧
+      s.low + 4 * 1 * s.low * (wCfg.threads + 1) < two63 ∧ s.sum.natAbs ≤ 2 ^ 126 - 1 ∧ e.tsum.natAbs ≤ 2 ^ 126 ∧
+      noOvf wCfg s e = true := by
+  decide +kernel
+
+example : HandsBelow wInit := handsBelow_init _ _ _ _ _
+example : handOk (run wCfg wInit (wPre.take 10)) (wPre.getD 10 wLast) = true := by decide +kernel
+
 end Pc.LB.S2
 
 #print axioms Pc.LB.S2.s2_history_overflow_witness
 #print axioms Pc.LB.S2.s2_whole_history_safety_refuted
+#print axioms Pc.LB.S2.handsBelow_run
+#print axioms Pc.LB.S2.hand_product_le_low
+#print axioms Pc.LB.S2.s2_step_no_overflow_of_hand_partial
